@@ -233,11 +233,15 @@ func (p *sparser) parseExpr() Expr {
 			if n.k != "id" {
 				panic("quantifier variable expected")
 			}
+			star := ""
+			if p.accept("*") {
+				star = "*"
+			}
 			ty := p.next()
 			if ty.k != "id" {
 				panic("quantifier type expected")
 			}
-			vars = append(vars, QVar{n.s, ty.s})
+			vars = append(vars, QVar{n.s, star + ty.s})
 			if !p.accept(",") {
 				break
 			}
@@ -515,6 +519,7 @@ type FuncSpec struct {
 	Mode     string // "int" | "bv"
 	Requires []Clause
 	Ensures  []Clause
+	TrustedEnsures []Clause // assumed at call sites, not checked against the body
 	Loops    map[int]*LoopSpec
 	Ghosts   []GhostVar
 	Calls    []*CallRule
@@ -550,7 +555,12 @@ type Lemma struct {
 	Mode     string
 }
 
+type GlobalGhost struct {
+	Name, Type string
+}
+
 type SpecFile struct {
+	Globals   []GlobalGhost
 	Funcs     []*FuncSpec
 	SpecFuncs []*SpecFunc
 	Lemmas    []*Lemma
@@ -700,6 +710,22 @@ func parseContractFile(path, pkgPath string) (*SpecFile, error) {
 			} else {
 				return nil, fail(fmt.Errorf("ensures outside func/lemma"))
 			}
+		case "trusted_ensures":
+			if cur == nil {
+				return nil, fail(fmt.Errorf("trusted_ensures outside func"))
+			}
+			c, err := mkClause("tpost", len(cur.TrustedEnsures)+1, rest)
+			if err != nil {
+				return nil, fail(err)
+			}
+			cur.TrustedEnsures = append(cur.TrustedEnsures, c)
+		case "global":
+			// global ghost name type
+			f := strings.Fields(rest)
+			if len(f) != 3 || f[0] != "ghost" {
+				return nil, fail(fmt.Errorf("want `global ghost name type`"))
+			}
+			sf.Globals = append(sf.Globals, GlobalGhost{f[1], f[2]})
 		case "loop":
 			if cur == nil {
 				return nil, fail(fmt.Errorf("loop outside func"))
